@@ -451,9 +451,25 @@ def eval_case(case):
     return res
 
 
+def corpus_cases():
+    """pinned regression cases (reproducers of fixed findings): run first, must pass"""
+    out = []
+    d = os.path.join(core.VERIF, "corpus", "C16")
+    if os.path.isdir(d):
+        for fn in sorted(os.listdir(d)):
+            if fn.endswith(".json"):
+                with open(os.path.join(d, fn)) as f:
+                    for c in json.load(f)["cases"]:
+                        c["ts"] = [(tuple(s), p, tuple(o)) for s, p, o in c["ts"]]
+                        c["cfg"]["thr"] = tuple(c["cfg"]["thr"])
+                        out.append(c)
+    return out
+
+
 def root_cause(case, res):
-    """C16-F1: pure target_classes mode + cap + a typing triple with a literal object: the cap's
-    _check_class_counts raises AttributeError where the uncapped run ignores the triple"""
+    """C16-F1 (fixed in /repo; only attributed while the finding is still listed as known): pure
+    target_classes mode + cap + a typing triple with a literal object: the cap's
+    _check_class_counts raised AttributeError where the uncapped run ignores the triple"""
     cfg = case["cfg"]
     if case["kind"] == "cap" and not cfg["all_classes"] and cfg["cap"] > 0 and \
             any(p == cfg["tau"] and o[0] == "L" for s, p, o in case["ts"]) and \
@@ -499,7 +515,7 @@ def run(tier, seed, replay=None):
         c["cfg"]["thr"] = tuple(c["cfg"]["thr"])
         cases = [c]
     else:
-        cases = build_cases(tier, rnd)
+        cases = corpus_cases() + build_cases(tier, rnd)
         ex, L = exhaustive_cases(tier)
         cases += ex
     results = core.pool_map(eval_case, cases, chunksize=32)
@@ -646,8 +662,8 @@ def run(tier, seed, replay=None):
                      "impl": results[i]["impl"][1][:300]} for i in pick],
     })
     run.assumptions = [
-        "graphs are duplicate-free and node strings identify nodes (NoDup g, ids_faithful g); every typing triple has a "
-        "node object (tau_ok) -- outside tau_ok finding C16-F1 applies",
+        "graphs are duplicate-free and node strings identify nodes (NoDup g, ids_faithful g); typing triples with a "
+        "literal object are generated too (out-of-domain stream): both runs of a pair must fail or succeed alike",
         "the restricted document is handed to the instance pass through instances_file_input (NT files under work/c16)",
         "the rest of the pipeline (profiler, shexer, serialiser) is the frozen model validated by the pipeline "
         "correspondence; C16's theorems use it only through run_shexc2's shape (only the tracker reads r_cap / g_inst)"]
